@@ -45,7 +45,7 @@ GridThoroughB == { I("allele", <<3>>, 3, 2, 2), I("allele", <<3>>, 3, 1, 3), I("
                    I("ped", <<2, 2>>, 2, 2, 2), I("ped", <<4, 2>>, 2, 1, 3), I("ped", <<2, 1, 1>>, 2, 1, 3) }
 GridThoroughC == { I("allele", <<2>>, 4, 2, 2), I("allele", <<3>>, 2, 3, 2), I("allele", <<2>>, 3, 3, 1) }
 GridThoroughD == { I("hap", <<2>>, 4, 2, 2) }
-(* three and four chains; with S = 2 and no burn-in a chain either holds one support (mass 1: compared at   *)
+(* three and four chains; with two retained steps a chain either holds one support (mass 1: compared at   *)
 (* every threshold) or two (mass 1/2: compared at 1/4 and 1/2 only), so that at the thresholds 5/8, 3/4, 1  *)
 (* some chains qualify and some do not.  The menus hold nested supports ({A,B} and {A}; {A,B,C} and {A,B}) *)
 (* and supports with a haplotype foreign to them (C resp. D), in sorted and unsorted storage order.         *)
@@ -55,10 +55,10 @@ MenuTet3 == {<<0, 0, 1, 2>>, <<1, 0, 1, 0>>, <<3, 1, 3, 3>>}
 MenuTetSorted == {<<0, 0, 1, 2>>, <<0, 0, 1, 1>>, <<0, 0, 3, 3>>, <<1, 3, 3, 3>>}
 MenuDip3 == {<<0, 1>>, <<0, 0>>, <<2, 2>>}
 MenuAll3 == {<<0, 0>>, <<0, 1>>, <<1, 2>>}
-GridChains == { IM("hap", 2, 3, 3, 2, MenuDip), IM("hap", 4, 4, 3, 2, MenuTet3), IM("hap", 2, 3, 4, 2, MenuDip3),
+GridChains == { IM("hap", 2, 3, 3, 2, MenuDip), IM("hap", 4, 4, 3, 2, MenuTet), IM("hap", 2, 3, 4, 2, MenuDip3),
                 IM("allele", 2, 3, 3, 2, MenuAll3) }
 GridChainsThorough == GridChains \cup
-              { IM("hap", 4, 4, 3, 2, MenuTet), IM("hap", 2, 3, 4, 2, MenuDip), IM("allele", 2, 3, 4, 2, MenuAll3),
+              { IM("hap", 4, 4, 4, 2, MenuTet3), IM("hap", 2, 3, 4, 2, MenuDip), IM("allele", 2, 3, 4, 2, MenuAll3),
                 IM("hap", 2, 3, 3, 3, MenuDip3), IM("allele", 4, 4, 3, 2, MenuTetSorted) }
 GridMutant == { I("hap", <<2>>, 2, 2, 2), I("hap", <<3>>, 2, 2, 1) }
 
@@ -116,7 +116,8 @@ Record == /\ phase = "record"
 
 Burn == /\ phase = "record"
         /\ \A c \in 1..inst.c : Len(tr[c]) = inst.s
-        /\ \E bb \in 0..(inst.s - 1), lb \in LabelingsOf(inst) :
+        \* menu instances keep at least two steps per chain (a single retained step always has mass 1)
+        /\ \E bb \in 0..(IF inst.menu # {} THEN inst.s - 2 ELSE inst.s - 1), lb \in LabelingsOf(inst) :
              /\ b' = bb
              /\ lab' = lb
              /\ sm' = Summaries(tr, bb, lb)
